@@ -24,6 +24,53 @@ import textwrap
 
 PY = '/venv/bin/python'
 
+
+# ------------------------------------------------------------------ scalar classes of leaf values
+# Shared by the probe below and by the harness (which records the scalar class of every leaf it sees printed).
+
+def scalar_kind(obj):
+    """The scalar class of the Python value wrapped by a LeafNode."""
+    if obj is None:
+        return 'null'
+    if isinstance(obj, bool):
+        return 'bool'
+    if isinstance(obj, int):
+        return 'int' if -2 ** 63 <= obj < 2 ** 64 else 'bigint'      # inside / outside int64 + uint64
+    if isinstance(obj, float):
+        if obj != obj:
+            return 'nan'
+        if obj in (float('inf'), float('-inf')):
+            return 'inf'
+        return 'float'
+    if isinstance(obj, bytes):
+        return 'bytes'
+    if isinstance(obj, str):
+        if obj == '':
+            return 'str-empty'
+        if any((ord(c) < 32 and c not in '\n\t\r') or ord(c) == 127 for c in obj):
+            return 'str-control'
+        if any(0xD800 <= ord(c) <= 0xDFFF for c in obj):
+            return 'str-surrogate'
+        if any(ord(c) > 0xFFFF for c in obj):
+            return 'str-astral'
+        if any(ord(c) > 126 for c in obj):
+            return 'str-nonascii'
+        if any(c in '"\'<>&\n\t\r\\' for c in obj):
+            return 'str-special'
+        return 'str'
+    return 'other:' + type(obj).__name__
+
+
+# several samples per scalar class; a class is accepted by a leaf print method iff every sample returns normally
+SAMPLES = {
+    'NullNode': [None],
+    'BoolNode': [True, False],
+    'IntegerNode': [1, 0, -1, 2 ** 63 - 1, -2 ** 63, 2 ** 64 - 1, 2 ** 64, -2 ** 63 - 1, 10 ** 30, -10 ** 30],
+    'FloatNode': [1.5, 0.0, -0.0, 1e308, 5e-324, 1e22, -1e-7, float('inf'), float('-inf'), float('nan')],
+    'StringNode': ['x', 'word two', 'y' * 2000, '', 'say "hi" <b>&amp;</b> it\'s\nline\ttab \\', '# hash', 'Zo\u00eb \u4e2d',
+                   '\U0001F600 astral', 'ctl\x01\x7f', 'nul\x00', b'by', b'\xff\x00'],
+}
+
 REFLECT = r'''
 import sys, json, inspect, io, textwrap
 import graphtage, graphtage.__main__ as gm
@@ -88,16 +135,18 @@ e = gg.ListNode.edited_type()
 assert [c.__name__ for c in e.__mro__][:3] == ['EditedListNode', 'EditedTreeNode', 'ListNode']
 assert [c.__name__ for c in e.__mro__][2:] == [c.__name__ for c in gg.ListNode.__mro__]
 
-# ---- leaf emitters: call every leaf print method on one sample of each scalar kind
-samples = {'NullNode': lambda: gg.NullNode(), 'BoolNode': lambda: gg.BoolNode(True),
-           'IntegerNode': lambda: gg.IntegerNode(1), 'FloatNode': lambda: gg.FloatNode(1.5),
-           'StringNode': lambda: gg.StringNode('x')}
+# ---- leaf emitters: call every leaf print method on several samples of every scalar class
+from gen_dispatch import scalar_kind, SAMPLES
+def mk(leaf, v):
+    return gg.NullNode() if leaf == 'NullNode' else getattr(gg, leaf)(v)
+for leaf, vals in SAMPLES.items():
+    for v in vals:
+        assert not scalar_kind(v).startswith('other:')
 def instances(f):
     yield f
     for s in f.sub_formatters:
         yield from instances(s)
-probe = []
-seen = set()
+probe = {}
 for root in gf.FORMATTERS:
     for inst in instances(root):
         k = type(inst)
@@ -106,19 +155,23 @@ for root in gf.FORMATTERS:
                 continue
             target = name[len('print_'):]
             owner = next(c for c in k.__mro__ if name in c.__dict__).__name__
-            for leaf, mk in samples.items():
+            for leaf, vals in SAMPLES.items():
                 lk = getattr(gg, leaf)
                 if target not in [c.__name__ for c in lk.__mro__]:
                     continue
-                if (owner, name, leaf) in seen:
+                if (owner, name, leaf) in probe:
                     continue
-                seen.add((owner, name, leaf))
-                p = Printer(io.StringIO(), ansi_color=False, quiet=True)
-                try:
-                    getattr(inst, name)(p, mk())
-                    probe.append([owner, name, leaf, True, ''])
-                except Exception as ex:
-                    probe.append([owner, name, leaf, False, type(ex).__name__])
+                kinds = {}
+                for v in vals:
+                    p = Printer(io.StringIO(), ansi_color=False, quiet=True)
+                    kd = scalar_kind(v)
+                    try:
+                        getattr(inst, name)(p, mk(leaf, v))
+                        kinds.setdefault(kd, [True, ''])
+                    except Exception as ex:
+                        kinds[kd] = [False, type(ex).__name__]
+                probe[(owner, name, leaf)] = kinds
+probe = [[o, n, l, sorted((k, v[0], v[1]) for k, v in kinds.items())] for (o, n, l), kinds in sorted(probe.items())]
 
 # ---- sources the hand-audited tables are tied to
 main_src = src(gm.main)
@@ -160,7 +213,7 @@ class TranslationError(Exception):
 
 def reflect(repo):
     env = dict(os.environ)
-    env['PYTHONPATH'] = repo
+    env['PYTHONPATH'] = repo + os.pathsep + os.path.dirname(os.path.abspath(__file__))
     env['PYTHONHASHSEED'] = '0'
     env['PYTHONDONTWRITEBYTECODE'] = '1'
     p = subprocess.run(['timeout', '120', PY, '-c', REFLECT], env=env, stdout=subprocess.PIPE, stderr=subprocess.PIPE,
@@ -576,10 +629,11 @@ def gen_dispatch(repo):
         rows.append(f'  (({cstr(owner)}, {cstr(mname)}), Build_msum {s.wrap} [' + '; '.join(acts) + '])')
     L.append(';\n'.join(rows) + '].')
     L.append('')
-    L.append('(* (owner class, method, leaf class) -> did the method return normally on a sample of that scalar kind *)')
-    L.append('Definition leaf_emit : list ((string * string * string) * bool) := [')
-    L.append(';\n'.join(f'  (({cstr(o)}, {cstr(m)}, {cstr(k)}), {"true" if ok else "false"})'
-                        for o, m, k, ok, _ in sorted(r['probe'])) + '].')
+    L.append('(* (owner class, method, leaf class) -> scalar class of the value -> did the method return normally on every sample *)')
+    L.append('Definition leaf_emit : list ((string * string * string) * list (string * bool)) := [')
+    L.append(';\n'.join(f'  (({cstr(o)}, {cstr(m)}, {cstr(k)}), '
+                        + clist(kinds, lambda kv: f'({cstr(kv[0])}, {"true" if kv[1] else "false"})') + ')'
+                        for o, m, k, kinds in r['probe']) + '].')
     L.append('')
     L.append('(* hand-audited (source hashes checked by the generator): input type -> (root classes, class -> child classes) *)')
     L.append('Definition grammar_table : list (string * (list string * list (string * list string))) := [')
